@@ -648,6 +648,45 @@ func c16File(res *Result, c Case, dir string, eng *twig.Engine, name, src string
 	// the template changes and is saved again into the same directory (within the same second, and with a loader
 	// that reports no time stamps): the file follows the template
 	src2 := "second version of " + name + " {{ 1 + 1 }}"
+	// an engine with auto-reload that serves the directory through the rewrites below: what it renders is the
+	// file as it is now (each rewrite moves the file's modification time forward; the time stamp stored inside
+	// the file does not move: same second, or a rollback)
+	served := twig.New()
+	served.SetAutoReload(true)
+	served.RegisterLoader(twig.NewCompiledLoader(dir))
+	servedStep := 0
+	servedCheck := func(step string, now string) bool {
+		servedStep++
+		ft := time.Now().Add(time.Duration(10*servedStep) * time.Second)
+		for _, f := range files {
+			os.Chtimes(f, ft, ft)
+		}
+		ref := twig.New()
+		if ref.RegisterString(name, now) != nil {
+			return true
+		}
+		want, werr := ref.Render(name, map[string]interface{}{"name": "N", "items": []interface{}{1, 2}})
+		var gotS string
+		var gerr error
+		pan, hung := c16Guard(30*time.Second, func() {
+			gotS, gerr = served.Render(name, map[string]interface{}{"name": "N", "items": []interface{}{1, 2}})
+		})
+		res.Evaluations++
+		res.Hist["file:served-through-rewrites"]++
+		if pan != nil || hung {
+			oracle("file/served ("+step+")", c, c16Clip(want), fmt.Sprintf("panic=%v hung=%v", pan, hung), "")
+			return false
+		}
+		if (werr == nil) != (gerr == nil) || (werr == nil && gotS != want) {
+			oracle("file/served ("+step+")", c, c16Clip(want)+fmt.Sprintf(" (err=%v)", werr), c16Clip(gotS)+fmt.Sprintf(" (err=%v)", gerr),
+				"an engine with auto-reload serving the compiled loader's directory does not render the file as it is now")
+			return false
+		}
+		return true
+	}
+	if !servedCheck("first version", src) {
+		return
+	}
 	for variant, mk := range map[string]func() *twig.Engine{
 		"registered again": func() *twig.Engine {
 			e := twig.New()
@@ -675,12 +714,18 @@ func c16File(res *Result, c Case, dir string, eng *twig.Engine, name, src string
 				"the template was changed and saved again; the file read back is not the template as it is now")
 			return
 		}
+		if !servedCheck("second version, "+variant, src2) {
+			return
+		}
 		// and back to the first source
 		e3 := twig.New()
 		e3.RegisterString(name, src)
 		if err := twig.NewCompiledLoader(dir).SaveCompiled(e3, name); err == nil {
 			if got3, err := twig.NewCompiledLoader(dir).Load(name); err != nil || got3 != src {
 				oracle("file/Load after the third save ("+variant+")", c, c16Clip(src), c16Clip(got3), "the file read back is not the template as it is now")
+				return
+			}
+			if !servedCheck("first version again, "+variant, src) {
 				return
 			}
 		}
